@@ -157,8 +157,11 @@ def jose_keyarg(plan, keymode: str, private: bool, form: str = "dict", op: str |
         if rp:
             params = {**(params or {}), **rp}
         objs.append(jkey(gk.key_from_record(m["key"]), form, private, params))
-    if len(ms) > 1 and keymode in ("key", "callable_key", "keyset_nokid", "callable_keyset_nokid"):
+    if len(ms) > 1 and keymode in ("key", "callable_key", "keyset_nokid", "callable_keyset_nokid", "keyset_single"):
         keymode = "keyset_kid"
+    if keymode == "keyset_single":
+        # a key set holding exactly the member's key: tokens without kid are acceptable against it
+        return KeySet(objs)
     if keymode == "key":
         return objs[0]
     if keymode == "callable_key":
